@@ -5,6 +5,7 @@ pub mod c13;
 pub mod c17;
 pub mod c18;
 pub mod c19;
+pub mod c20;
 pub mod conc;
 pub mod evict;
 pub mod stress;
